@@ -90,6 +90,13 @@ def enumerated_family():
                [(0, 0, 0, "uvu<v", True, 1), (0, 0, 1, "u<vw", True, 1), (0, 0, 2, "uvu<v", False, 1)], shared=False, optimize=False),
         Config("M006", "1x1o+1x1o", "1x1o", "1x1e+1x0e",
                [(0, 0, 0, "uuu", True, 0), (1, 0, 0, "uuu", True, 1), (1, 0, 1, "uuu", False, 1)], specialized=False),
+        # empty (zero-multiplicity) paths listed BEFORE non-empty ones, unweighted and weighted, outputs of equal dimension
+        Config("M008", "0x1o+1x1o", "1x1e+1x1o", "0x1o+1x1o+1x1e",
+               [(0, 0, 0, "uvu", False, 1), (1, 0, 1, "uvu", False, 1), (1, 1, 2, "uvu", False, 1)]),
+        Config("M009", "0x0e+1x1o", "1x1e+3x1o", "0x1e+1x1o+3x0e",
+               [(0, 0, 0, "uvu", False, 1), (1, 0, 1, "uvu", True, 1), (1, 1, 2, "uvv", True, 1)], shared=False),
+        Config("M010", "0x0e+3x1o", "2x0e+2x1o", "4x0e+3x1o",
+               [(0, 0, 0, "uvw", True, 1), (0, 1, 1, "uvw", True, 1), (1, 0, 1, "uvw", True, 1), (1, 1, 0, "uvw", True, 1)], optimize=False),
         Config("M007", "2x0e", "2x0e", "2x0e", [(0, 0, 0, "uuu", False, 1), (0, 0, 0, "uvw", True, 1)], irrep_normalization="none", path_normalization="none"),
     ]
     return fam
